@@ -6,7 +6,49 @@
         has_entry(&self.addrs, addr, res),
 //@ entry
         broadcast use axiom_ip_key_injective;
+        broadcast use axiom_pair_clone;
+        broadcast use axiom_comparator_total;
+//@ envcall into vec_into_arc new_addrs
 //@ closure 1
 |x: &(IpAddr, Arc<RtrMetricsData>)| -> (r: Ordering) ensures r == ip_cmp(x.0, addr)
 //@ closure 2
 |x: &(IpAddr, Arc<RtrMetricsData>)| -> (r: Ordering) ensures r == ip_cmp(x.0, addr)
+//@ fn RtrClientMetrics::update
+//@ spec
+    requires
+        op.requires((&*self.global,)),
+        self.client matches Some(c) ==> op.requires((&*c,)),
+    ensures
+        // the operation is applied to the global record and, if per-address metrics are on, to the address's record
+        op.ensures((&*self.global,), ()),
+        self.client matches Some(c) ==> op.ensures((&*c,), ()),
+//@ fn RtrServerMetrics::get_client
+//@ spec
+    requires self.client matches Some(c) ==> writer_mutex(&c.addrs) == &c.write,
+    ensures
+        res.global == self.global,
+        // C36: with per-client metrics enabled the connection is attached to the registry's entry for its address
+        self.client matches Some(c) ==> (res.client matches Some(m) && has_entry(&c.addrs, addr, m)),
+        self.client is None ==> res.client is None,
+//@ closure 1
+|client: &RtrPerAddrMetrics| -> (r: Arc<RtrMetricsData>)
+    requires writer_mutex(&client.addrs) == &client.write
+    ensures has_entry(&client.addrs, addr, r)
+//@ fn RtrStream::new
+//@ spec
+    requires server_metrics.client matches Some(c) ==> writer_mutex(&c.addrs) == &c.write,
+    ensures
+        // C36: a stream that comes into existence has been counted, globally and under its address's entry
+        res matches Ok(s) ==> s.metrics.global == server_metrics.global && conn_incremented(&*s.metrics.global)
+            && (server_metrics.client matches Some(c) ==>
+                    (s.metrics.client matches Some(m) && has_entry(&c.addrs, addr.ip_spec(), m) && conn_incremented(&*m))),
+//@ closure 1
+|metrics: &RtrMetricsData| ensures conn_incremented(metrics)
+//@ fn RtrStream::drop
+//@ spec
+    ensures
+        // C36: closing the stream uncounts it on the same records
+        conn_decremented(&*old(self).metrics.global),
+        old(self).metrics.client matches Some(m) ==> conn_decremented(&*m),
+//@ closure 1
+|metrics: &RtrMetricsData| ensures conn_decremented(metrics)
